@@ -114,7 +114,7 @@ def analyze(c, twin=False, extra_pre=(), seed=0):
         counterexample_description_maker=describe,
     )
     stats = collections.Counter()
-    timeout = 30 if twin else c.timeout
+    timeout = max(30, 2 * c.per_path) if twin else c.timeout
     optset = AnalysisOptionSet(
         analysis_kind=[AnalysisKind.PEP316],
         per_condition_timeout=float(timeout),
